@@ -60,7 +60,7 @@ Fixpoint insert_item {A} (kv : Z * A) (l : list (Z * A)) : list (Z * A) :=
   | [] => [kv]
   | kv' :: r => if fst kv <? fst kv' then kv :: kv' :: r
                 else if fst kv' <? fst kv then kv' :: insert_item kv r
-                else kv' :: r   (* duplicate key: cannot happen for a dict; first one wins *)
+                else kv :: r    (* duplicate key (cannot happen for a dict): like [lookup], the leftmost wins *)
   end.
 
 Definition sort_items {A} (l : list (Z * A)) : list (Z * A) :=
